@@ -990,7 +990,7 @@ matrix_ass_subscr_noalias(matrix* self, PyObject* args, PyObject* val)
             &colstart, &colstop, &colstep, &collgt) < 0)) return -1;
 #endif
 
-    if (decref_val && MAT_LGT(val) == rowlgt*collgt) {
+    if (decref_val && ndim < 2 && MAT_LGT(val) == rowlgt*collgt) {
       MAT_NROWS(val) = rowlgt; MAT_NCOLS(val) = collgt;
     }
 
